@@ -56,6 +56,9 @@ func verifyFunction(w *World, specs *Specs, tt *TypeTable, fn *ssa.Function, c *
 			panic(specError{fmt.Sprintf("%s: implements %s but no contract %s", c.Key, c.Implement, ikey)})
 		}
 		vc.effective = mergeContracts(c, ic, "")
+		for _, r := range c.Requires {
+			vc.usedTrusted[fmt.Sprintf("A-WIRING: own precondition [%s] of %s is assumed where the method is reached through %s (established by the wiring phases, not checked at the dispatch site)", r.Label, shortFuncKey(c.Key), c.Implement)] = true
+		}
 	}
 	vc.tparamsEnv = typeParamsOf(fn)
 	vc.findLoops()
@@ -110,6 +113,7 @@ func verifyFunction(w *World, specs *Specs, tt *TypeTable, fn *ssa.Function, c *
 	for _, r := range vc.effective.Requires {
 		st.assume = append(st.assume, vc.trClause(env, r))
 	}
+	vc.initGuards(st, env)
 	vc.buildProbes(st, env)
 	vc.cover(st, "requires-satisfiable", posString(w, fn.Pos()), vc.effective.Props)
 	vc.execFrom(st, fn.Blocks[0], nil)
